@@ -54,12 +54,13 @@ class C11(Prop):
                    'datetime.now(utc) is an oracle value: canonicalised to `now` after checking it is tz-aware UTC and inside the run window',
                    'Python set/frozenset object identity and mutation are modelled by a heap of tag lists; the queue handed to StreamToQueue dispatches each event to the inner result synchronously',
                    'status() is called with the first k parameters positional (k varies with the input) and the rest by keyword, except that the field a `*args, **kwargs` decorator owns is always passed by keyword (StreamTagger: test_tags, TimestampingStreamResult: timestamp - passing those positionally through them raises TypeError in the unchanged code: outside the generated domain; audit/C11 v1 reads the property over every calling convention: recorded as an interpretation, not repaired)',
+                   'INTERPRETATION pinned by the suite (audit/C11 v2 read the prose the other way): StreamTagger.status forwards `test_tags or None`, so an EMPTY resulting tag set - an empty set supplied to a tagger with nothing to do, or every supplied tag discarded - reaches the targets as None; TestStreamTagger.test_discarding asserts exactly that, so it is intended behaviour and not repaired. Downstream None means "no tag information": a consumer behind a tagger (_update_case: `if test_tags is not None`) keeps the PREVIOUS tags of the test where it would have recorded the empty set; the model keeps None and the empty set apart everywhere else',
                    'INTERPRETATIONS (audit/C11 borderline list, modelled from the code): the set a StreamTagger builds is ONE object handed to all its targets, CopyStreamResult / StreamToQueue hand the caller\'s own object on - observable only by a target that writes to what it receives (the recording sinks do not; clause no-late-write checks that nobody else does); a raising target ends the fan-out; `targets` is kept by reference']
 
     manifest = {
         'text': 'Theorems for every decorator tree (any depth and fan-out of CopyStreamResult / StreamTagger / TimestampingStreamResult / StreamToQueue over '
                 'sinks and StreamFailFast leaves), every heap of caller tag-set objects and every call sequence: each sink receives each startTestRun / stopTestRun / '
-                'status exactly once, in order, and the status it receives is the composition along its own path of: tags (t | add) - discard (a set, possibly empty; None only for an event that supplied None and gets nothing added - None = no tag information and the empty set = no tags now are kept apart end to end), timestamp '
+                'status exactly once, in order, and the status it receives is the composition along its own path of: tags (t | add) - discard (None when that is empty - pinned by the suite, see assumptions), timestamp '
                 'filled iff missing, route code prefixed - every other field unchanged, independent of siblings; StreamFailFast fires exactly for fail and uxsuccess; '
                 'no object of the caller is written (the heap only grows) and what a sink holds at the end is what it received. The hand-written model is tied to the '
                 'code by a differential check with receipt-time and end-of-run snapshots and object identities.',
@@ -192,7 +193,7 @@ class C11(Prop):
             yield ['copy', a]
             yield ['tagger', [1], [0], a]
             yield ['tagger', [], [0, 1], a]
-            yield ['tagger', [], [], a]                 # nothing to do: the identity, also on None and on the empty set
+            yield ['tagger', [], [], a]                 # nothing to do: the identity - except that an empty tag set goes on as None
         for a in subs:
             for b in subs:
                 yield ['copy', a, b]
